@@ -28,10 +28,12 @@ type posaChain struct {
 
 func newChainDriver(r *Router, seed uint64) chainDriver {
 	switch r.Family {
-	case "bsc", "heco", "pixie":
+	case "bsc", "heco", "pixie", "clique", "bor":
 		return &posaChain{r: r, seed: seed}
 	case "eth":
 		return &ethChain{seed: seed}
+	case "quorum":
+		return &quorumChain{seed: seed}
 	}
 	vio.Fatal("no chain driver for router %s", r.Name)
 	return nil
@@ -42,6 +44,7 @@ func newChainDriver(r *Router, seed uint64) chainDriver {
 func (c *posaChain) Install(ccm ecommon.Address, wait uint64, roots map[uint64]ecommon.Hash, g0, best, forkAt uint64, forkRoot ecommon.Hash) *nativekit.Sandbox {
 	cfg := chainCfgs["F"]
 	cfg.G0 = g0
+	cfg.Epoch = 100 // clique: no checkpoint inside the synthetic chain (g0 must be a multiple of 100 for msc)
 	names := cfg.Sets[1]
 	cfg.GenesisSigner = names[g0%3]
 	w := NewWorldCCM(c.r, cfg, c.seed, wait, roots[g0], ccm)
@@ -52,7 +55,11 @@ func (c *posaChain) Install(ccm ecommon.Address, wait uint64, roots map[uint64]e
 		if h == forkAt {
 			forkParent = parent
 		}
-		hd := w.Build(parent, Elem{S: names[h%3], D: 2, A: 0}, "ok", roots[h])
+		el := Elem{S: names[h%3], D: 2, A: 0}
+		if c.r.Family == "bor" { // the proposer of the sprint seals every canonical header with difficulty |V|
+			el = Elem{S: cfg.GenesisSigner, D: 3, A: 0}
+		}
+		hd := w.Build(parent, el, "ok", roots[h])
 		o := w.Submit(hd, true, w.dumpHS(), 0)
 		if !o.Stored || o.CH != h {
 			vio.Fatal("chain driver %s: canonical header %d not stored: %+v", c.r.Name, h, o)
@@ -60,7 +67,11 @@ func (c *posaChain) Install(ccm ecommon.Address, wait uint64, roots map[uint64]e
 		parent = hd
 	}
 	if forkParent != nil {
-		fh := w.Build(forkParent, Elem{S: names[(forkAt+1)%3], D: 1, A: 0}, "ok", forkRoot)
+		fe := Elem{S: names[(forkAt+1)%3], D: 1, A: 0}
+		if c.r.Family == "bor" { // first backup producer: succession 1, difficulty |V| - 1
+			fe = Elem{S: names[(g0%3+1)%3], D: 2, A: 0}
+		}
+		fh := w.Build(forkParent, fe, "ok", forkRoot)
 		o := w.Submit(fh, true, w.dumpHS(), 0)
 		if !o.Stored || o.CH != best {
 			vio.Fatal("chain driver %s: fork header not stored as a side branch: %+v", c.r.Name, o)
